@@ -1,2 +1,72 @@
--- line-protocol driver for C08 (stub; replaced when the property is built)
-def main : IO Unit := IO.println "stub"
+import Verif.Model.CRL
+/-!
+  Line-protocol driver for C08 (CRL generation).
+
+  `h cache=<sec> reqs=<R>;<R>;… evs=<E>,<E>,…`
+      R = `g:<now>` (a generation: start-up, tick or forced) |
+          `r:<key>:<revokedAt>:<expiresAt|->:<generateOnRevoke 0|1>:<now>` (a revocation); key = `x<hex>`
+      E = `s<thread>` | `r0`
+      output: answers of the requests joined by `,` (ok already drop pend), then every list
+          stored, oldest first, as ` n=<number>,t=<thisUpdate>,u=<nextUpdate>,e=[<key>:<time>|…]` with entries
+          sorted by key
+-/
+open Verif Verif.Store Verif.CRL
+
+namespace C08
+
+def str? (t : String) : Option Str :=
+  if t.startsWith "x" then unhex (t.drop 1).toString else none
+
+def lookup (kv : List (String × String)) (k : String) : Option String :=
+  (kv.find? (·.1 = k)).map (·.2)
+
+def req? (t : String) : Option Req :=
+  match t.splitOn ":" with
+  | ["g", now] => do
+    pure { inp := { kind := .gen, key := [], record := ⟨0, none⟩, now := (← now.toNat?) } }
+  | ["r", key, at_, exp, gor, now] => do
+    let exp ← if exp = "-" then some none else exp.toNat?.map some
+    let gor ← if gor = "1" then some true else if gor = "0" then some false else none
+    pure { inp := { kind := .revoke gor, key := (← str? key), record := ⟨(← at_.toNat?), exp⟩, now := (← now.toNat?) } }
+  | _ => none
+
+def ev? (t : String) : Option Ev :=
+  if t.startsWith "s" then (t.drop 1).toString.toNat?.map .step
+  else if t.startsWith "r" then (t.drop 1).toString.toNat?.map .restart else none
+
+def list? {α : Type} (sep : String) (f : String → Option α) (t : String) : Option (List α) :=
+  if t = "-" then some [] else (t.splitOn sep).mapM f
+
+def outS : Out → String
+  | .pending => "pend" | .ok => "ok" | .already => "already" | .dropped => "drop"
+
+def strLe : Str → Str → Bool
+  | [], _ => true
+  | _ :: _, [] => false
+  | a :: as, b :: bs => if a < b then true else if b < a then false else strLe as bs
+
+def crlS (c : CRLRec) : String :=
+  let es := c.entries.mergeSort (fun a b => strLe a.1 b.1)
+  s!"n={c.number},t={c.thisUpdate},u={c.nextUpdate},e=[" ++
+    String.intercalate "|" (es.map fun e => "x" ++ hex e.1 ++ ":" ++ toString e.2) ++ "]"
+
+def eval (line : String) : Option String := do
+  let fs := fields line
+  let kv := fs.filterMap fun f =>
+    match f.splitOn "=" with
+    | [k, v] => some (k, v)
+    | _ => none
+  match fs.head? with
+  | some "h" =>
+    let cache ← (← lookup kv "cache").toNat?
+    let rs ← list? ";" req? (← lookup kv "reqs")
+    let evs ← list? "," ev? (← lookup kv "evs")
+    let g : G := { revoked := [], crl := none, log := [], lock := false, cache := cache, mutex := true }
+    let s := machine.run (g, rs) evs
+    pure (String.intercalate "," (s.2.map (outS ·.out)) ++
+      String.join (s.1.log.reverse.map fun c => " " ++ crlS c))
+  | _ => none
+
+end C08
+
+def main : IO Unit := Verif.lineLoop fun l => (C08.eval l).getD "parse-error"
